@@ -157,6 +157,26 @@ def r1(case, rec):
         gens.fs_equal(pb, epb, joint, 1e-10, 'll_multinom_per_bin', rec, atol=1e-11 * scale)
     require(np.array_equal(snap[0], mfs.data) and np.array_equal(snap[1], mfs.mask) and np.array_equal(snap[2], dfs.data)
             and np.array_equal(snap[3], dfs.mask), 'likelihood functions modified their arguments')
+    # The user then edits the SAME data spectrum in place (the usual idiom: data.mask[1] = True, or overwriting a count) and
+    # evaluates again: the likelihood must be that of the spectrum as it now is.
+    free = np.argwhere(~joint)
+    if len(free) >= 2:
+        rs = np.random.RandomState(case.get('seed', 0) % (2 ** 31) if isinstance(case.get('seed', 0), int) else 0)
+        i1, i2 = (tuple(int(v) for v in free[j]) for j in rs.choice(len(free), 2, replace=False))
+        dfs.mask[i1] = True
+        dfs.data[i2] = float(dfs.data[i2]) + 3.0
+        edata2 = edata.copy()
+        edata2[i2] += 3.0
+        joint2 = joint.copy()
+        joint2[i1] = True
+        with dadi_call('ll after editing the data spectrum in place'):
+            got2 = float(Inference.ll(mfs, dfs))
+            per2 = Inference.ll_per_bin(mfs, dfs)
+        exp2, eper2 = poisson_ll(emodel, edata2, joint2)
+        scale2 = np.abs(eper2[~joint2]).sum() + 1.0
+        require(abs(got2 - exp2) <= 1e-11 * scale2, 'after masking entry %s and adding 3 to entry %s of the data spectrum in place, ll = %r but the Poisson sum over '
+                'the entries now jointly unmasked is %r' % (i1, i2, got2, exp2))
+        gens.fs_equal(per2, eper2, joint2, 1e-11, 'll_per_bin after in-place edits', rec, atol=1e-11 * scale2)
 
 
 @st.composite
